@@ -78,6 +78,9 @@ CHECKS = {
  'C34': (['asan'], 'event-log monitor: every definite answer of 17 property queries is tested against assignments drawn from the assumption set; properties of the value decided exactly over Gaussian rationals, or by mpmath with a 1e-10 margin; is_polynomial against the structural definition',
          'Random expressions under 13 consistent assumption sets per symbol; a definite answer is refuted only by a decidable witness (sound, intentionally incomplete).',
          'Irrationality/algebraicity claims are refuted only through the exact path; is_rational/is_irrational (no assumption argument) judged on symbol-free inputs.', 'DESIGN.md 3/C34'),
+ 'C21': (['asan'], 'event-log monitor vs schoolbook coefficient dictionaries over Python ints / Fractions; divides judged by the boolean and quotient*divisor == dividend; UExprPoly through expand + eq',
+         'Pairs of UIntPoly/URatPoly with coefficients sized around powers of two (Kronecker substitution stress), zero and constant operands, sparse and dense; ~14 operations per pair.',
+         'Coefficients up to 300 bits, degree up to 30; UExprPoly compared through the symbolic layer.', 'DESIGN.md 3/C21'),
 }
 
 def main():
